@@ -52,4 +52,7 @@ func ToIncrementalResponse
 // snapshot it has just received and keep the full batch: the `continue` in its full-batch branch.)
 func BatchSnapshots.Encode
   assumes isnil(result_1)
+// (decoding fills the receiver from the message; what it reads is json's, not modelled)
+func BatchSnapshots.Decode
+  modifies *b
 @*/
